@@ -170,6 +170,9 @@ def selection(repo, run):
                 continue
             if _mentions_direction(r.value):
                 ok = True
+            # control dependence through a guarded return: `if <direction test>: return idx - 1` ... `return idx`
+            if any(isinstance(a, (ast.If, ast.IfExp)) and _mentions_direction(a.test) for a in ancestors(r)):
+                ok = True
             names = {n.id for n in ast.walk(r.value) if isinstance(n, ast.Name)}
             for st in walk_no_nested(fn):
                 # an assignment to the returned variable (or an element of it) under a test that reads a direction indicator
@@ -601,8 +604,6 @@ def dense_lookup_is_the_interpolant(repo, run):
     rets = [r for r in walk_no_nested(fn) if isinstance(r, ast.Return) and r.value is not None]
     dense_rets = []
     for r in rets:
-        if not any(isinstance(a, ast.If) and "dense_output" in src(a.test) for a in ancestors(r)):
-            continue
         on, _ = reachable_under(r, fn, _Canon(), fix_with(True))
         off, _ = reachable_under(r, fn, _Canon(), fix_with(False))
         if on and not off:
